@@ -122,7 +122,7 @@ def main():
     if record:
         with open(os.path.join(VERIF, "SELFTEST.md"), "w") as f:
             f.write("# Self-test: which check catches which deliberate change\n\n")
-            f.write("Produced by `tools/selftest.py --record` (each change applied to a scratch copy of /repo, the named property's quick check run with --repo; exit 1 = caught).\n\n")
+            f.write("Produced by `tools/selftest.py --record` (each change applied to a scratch copy of /repo, the named property's quick check run with --repo; exit 1 = caught). A MISSED row for a change's own property comes with a caught row for the property whose check is its catcher (`checked_by` in its meta.json; DESIGN.md 9.5 says why).\n\n")
             f.write("| change | property | result | oracle(s) that fired |\n|---|---|---|---|\n")
             for name, prop, caught, oracles in sorted(table):
                 f.write("| %s | %s | %s | %s |\n" % (name, prop, "caught" if caught else "MISSED", ", ".join(oracles)))
